@@ -411,6 +411,7 @@ def main():
             for s in prop.get("standins", []):
                 r, w = run_replay(binp, ["standin", s, tier])
                 r["wall_s"] = round(w, 2)
+                r["label"] = "bounded (exercises an assumed / not-under-contract item on the real crate within the stated bound; not counted as proved)"
                 standin_res.append(r)
                 if r.get("error"):
                     undecided.append("stand-in %s: %s" % (s, r["error"]))
